@@ -102,24 +102,6 @@ func randLimitCfg(rnd *rand.Rand) map[string]any {
 	}
 }
 
-// c09KnownFinding classifies a case from its input alone: the receiver layout (limited server in
-// front of a ProxyStore) with a limit configured below or at 1 -- the configurations in which the
-// request can exceed the limit. The proxy re-wraps the limited server's send error as Unknown.
-func c09KnownFinding(c vt.Case) string {
-	cfg := vt.Map(c["cfg"])
-	if vt.Str(cfg["store"]) != "recvl" {
-		return ""
-	}
-	tight := func(v any) bool {
-		m := decode[limMode](v)
-		return (m.Mode == "rel" && m.D < 0) || m.Mode == "abs"
-	}
-	if tight(cfg["sl"]) || tight(cfg["cl"]) {
-		return "limit-error-through-proxy-is-unknown"
-	}
-	return ""
-}
-
 func countObs(r world.SeriesResult) map[string]any {
 	o := seriesObs(r)
 	distinct := map[string]bool{}
@@ -178,7 +160,7 @@ func TestC09(t *testing.T) {
 			}
 		}
 	}
-	vt.Run(t, gen, c09KnownFinding, func(c vt.Case) vt.Event {
+	vt.Run(t, gen, nil, func(c vt.Case) vt.Event {
 		w := decode[aWorld](c["world"])
 		req := decode[aReq](c["req"])
 		cfg := vt.Map(c["cfg"])
